@@ -576,7 +576,7 @@ func (w *world) apiRequest(r *rng.R, o op, tracked bool) (path string, body []by
 		}
 		return "/config/cluster-version", mustJSON(map[string]string{"cluster-version": o.Ver}), true
 	case "mode":
-		// (before fix 9b30bb0 the getter handed out the served pointer and these requests were kept out of the model-tracked stream)
+		// (before fix e37f37e the getter handed out the served pointer and these requests were kept out of the model-tracked stream)
 		t := *w.s.GetReplicationModeConfig() // a copy made here: the harness itself must never write through what a getter returns
 		w.applyMode(&t, o.M)
 		sv := *w.s.GetReplicationModeConfig()
